@@ -832,15 +832,9 @@ Proof.
 Qed.
 
 (* --------------------------------------------------------------- one step *)
-(* the one operation of the alphabet that can leave a false flag: Tensor.normalize_
-   keeps the flag of the tensor it rescales; harmless only on an unflagged tensor *)
-Definition flag_safe (st : mps) (o : op) : Prop :=
-  match o with ONormalizeSite i => fl (get (sites st) i) = FNone | _ => True end.
-
-Theorem step_flags : forall o c st st', step o c st = Some st' -> FlagsOK (sites st) -> flag_safe st o ->
-  FlagsOK (sites st').
+Theorem step_flags : forall o c st st', step o c st = Some st' -> FlagsOK (sites st) -> FlagsOK (sites st').
 Proof.
-  intros o c st st' H F FS. destruct o; simpl in H.
+  intros o c st st' H F. destruct o; simpl in H.
   - apply (canon_pres _ _ _ _ _ _ H F).
   - apply (singular_values_pres _ _ _ _ H F).
   - apply (compress_site_spec _ _ _ _ _ H F).
@@ -855,7 +849,7 @@ Proof.
   - destruct (scale_sites ss (sites st)) as [l|] eqn:SC; simpl in H; try discriminate.
     inversion H; subst; simpl. apply (scale_sites_spec _ _ _ SC F).
   - destruct (i <? length (sites st)); try discriminate. inversion H; subst; simpl.
-    apply FlagsOK_setS; auto. simpl in FS. rewrite FS. auto with c08.
+    apply FlagsOK_setS; auto with c08.
   - inversion H; subst; simpl. auto.
 Qed.
 
@@ -880,19 +874,15 @@ Definition good (st : mps) (o : op) : Prop :=
      rescaled site lies inside the recorded range; otherwise the caller has to start
      a fresh record (OSetRecord with anything but a pair) *)
   | OScale ss => match rec st with RSome a b => Forall (fun s => a <= s /\ s <= b) ss | _ => True end
-  (* Tensor.normalize_ of a site: as a rescale, and only on an unflagged tensor (it keeps the flag) *)
-  | ONormalizeSite i => fl (get (sites st) i) = FNone
-                        /\ match rec st with RSome a b => a <= i /\ i <= b | _ => True end
+  (* Tensor.normalize_ of a site: as a rescale of that one site *)
+  | ONormalizeSite i => match rec st with RSome a b => a <= i /\ i <= b | _ => True end
   | OSetRecord r => match r with RSome _ _ => False | _ => True end
   end.
-
-Lemma good_flag_safe : forall st o, good st o -> flag_safe st o.
-Proof. intros st o G. destruct o; simpl in *; auto. tauto. Qed.
 
 Theorem step_inv : forall o c st st', Inv st -> good st o -> calc_ok (length (sites st)) c ->
   step o c st = Some st' -> Inv st'.
 Proof.
-  intros o c st st' (F & RO) G CO H. split; [eapply step_flags; eauto using good_flag_safe|].
+  intros o c st st' (F & RO) G CO H. split; [eapply step_flags; eauto|].
   destruct o; simpl in H, G.
   - apply (canon_pres _ _ _ _ _ _ H F); auto. tauto.
   - apply (singular_values_pres _ _ _ _ H F); auto.
@@ -914,7 +904,7 @@ Proof.
     + intros k K KL. rewrite C. apply S4; auto.
       intro IN. rewrite Forall_forall in G. apply G in IN. lia.
   - destruct (i <? length (sites st)) eqn:E; try discriminate. inversion H; subst; clear H.
-    destruct G as (_ & G). unfold RecOK in *; simpl. destruct (rec st); auto.
+    unfold RecOK in *; simpl. destruct (rec st); auto.
     destruct RO as (S1 & S2 & S3 & S4). unfold Sound. rewrite length_setS. splits; auto.
     + intros k K. rewrite get_setS_neq by lia. apply S3; auto.
     + intros k K KL. rewrite get_setS_neq by lia. apply S4; auto.
@@ -948,18 +938,11 @@ Theorem run_inv_every_prefix : forall ops st, Inv st -> all_good ops st ->
   forall n st', run (firstn n ops) st = Some st' -> Inv st'.
 Proof. intros ops st I G n st' H. apply (run_inv (firstn n ops) st st'); auto. apply all_good_firstn. auto. Qed.
 
-Fixpoint all_flag_safe (ops : list (op * (nat * nat))) (st : mps) : Prop :=
-  match ops with
-  | [] => True
-  | (o, c) :: r => flag_safe st o /\ match step o c st with Some st' => all_flag_safe r st' | None => True end
-  end.
-
-Theorem run_flags : forall ops st st', FlagsOK (sites st) -> all_flag_safe ops st -> run ops st = Some st' ->
-  FlagsOK (sites st').
+Theorem run_flags : forall ops st st', FlagsOK (sites st) -> run ops st = Some st' -> FlagsOK (sites st').
 Proof.
-  induction ops as [|[o c] r]; simpl; intros st st' F A H.
+  induction ops as [|[o c] r]; simpl; intros st st' F H.
   - inversion H; subst; auto.
-  - destruct A as (A1 & A2). destruct (step o c st) as [st1|] eqn:S1; simpl in H; try discriminate.
+  - destruct (step o c st) as [st1|] eqn:S1; simpl in H; try discriminate.
     apply (IHr st1 st'); auto. apply (step_flags o c st st1); auto.
 Qed.
 
@@ -1035,9 +1018,7 @@ Definition good_b (st : mps) (o : op) : bool :=
   | ODroppedCopy _ _ _ => true
   | OLocalExpMany ws _ => forallb (fun w => (fst w <? L) && (snd w <? L)) ws
   | OScale ss => match rec st with RSome a b => forallb (fun s => (a <=? s) && (s <=? b)) ss | _ => true end
-  | ONormalizeSite i =>
-      match fl (get (sites st) i) with FNone => true | _ => false end
-      && match rec st with RSome a b => (a <=? i) && (i <=? b) | _ => true end
+  | ONormalizeSite i => match rec st with RSome a b => (a <=? i) && (i <=? b) | _ => true end
   | OSetRecord r => match r with RSome _ _ => false | _ => true end
   end.
 
@@ -1048,9 +1029,7 @@ Proof.
     unfold good_b in H; unfold good; cbv zeta in *; auto; try lia.
   - rewrite forallb_forall in H. apply Forall_forall. intros w W. apply H in W. lia.
   - destruct (rec st); auto. rewrite forallb_forall in H. apply Forall_forall. intros w W. apply H in W. lia.
-  - apply andb_true_iff in H. destruct H as (H1 & H2). split.
-    + destruct (fl (get (sites st) i)); auto; discriminate.
-    + destruct (rec st); auto. lia.
+  - destruct (rec st); auto. lia.
   - destruct r; auto. discriminate.
 Qed.
 
@@ -1081,21 +1060,8 @@ Definition w_state : mps :=
 Lemma w_state_inv : Inv w_state.
 Proof. apply inv_b_iff. vm_compute. reflexivity. Qed.
 
-(* Tensor.normalize_ on a flagged site tensor leaves a false flag (open finding): a state whose
-   loose record (0,5) stays true, but whose site 1 is afterwards flagged left-isometric without being so *)
+(* a sound state with a loose record (0,5): every site flagged as canonicalize leaves it *)
 Definition w_loose : mps := mkM (sites w_state) (RSome 0 5).
-
-Lemma tensor_normalize_refuted :
-  exists st', Inv w_loose /\ step (ONormalizeSite 1) (0, 0) w_loose = Some st'
-              /\ record_ok st' = true /\ ~ FlagsOK (sites st').
-Proof.
-  match eval vm_compute in (step (ONormalizeSite 1) (0, 0) w_loose) with
-  | Some ?s => exists s
-  end.
-  split; [apply inv_b_iff; vm_compute; reflexivity|].
-  split; [vm_compute; reflexivity|]. split; [vm_compute; reflexivity|].
-  intro H. apply flags_ok_iff in H. vm_compute in H. discriminate.
-Qed.
 
 (* a history through every formerly refuted operation, from an uncanonicalised
    5-site state and an empty info dict *)
